@@ -9,6 +9,7 @@ import Driver.Gossip
 import Driver.Rebalance
 import Driver.Syncer
 import Driver.WS
+import Driver.Http
 import Driver.Auth
 import Driver.Route
 /-!
@@ -30,6 +31,7 @@ def engines : List (String × Engine) :=
    ("codec", CodecEngine.engine),
    ("syncer", SyncerEngine.engine),
    ("ws", WSEngine.engine),
+   ("http", HttpEngine.engine),
    ("gossip", GossipEngine.engine)]
 
 partial def loop (h : IO.FS.Stream) (out : IO.FS.Stream) (e : Engine) (s : e.σ) : IO Unit := do
